@@ -7,8 +7,14 @@ use crate::ops::{history_strategy, GenCfg, Policy};
 use crate::runner::Property;
 
 pub mod c01;
+pub mod c02;
+pub mod c03;
+pub mod c04;
 pub mod c05;
 pub mod c06;
+pub mod c08;
+pub mod c09;
+pub mod c12;
 pub mod c13;
 pub mod c14;
 pub mod c15;
@@ -27,6 +33,31 @@ pub fn case_strategy(cfg: &GenCfg, policies: Vec<Policy>, n_words: usize) -> Box
         .prop_map(|(policy, ops, words)| Case {
             policy,
             ops,
+            cont: Vec::new(),
+            words,
+            extra: None,
+        })
+        .boxed()
+}
+
+/// Like `case_strategy`, plus a continuation history generated from `cont_cfg`.
+pub fn case_strategy_cont(
+    cfg: &GenCfg,
+    cont_cfg: &GenCfg,
+    policies: Vec<Policy>,
+    n_words: usize,
+) -> BoxedStrategy<Case> {
+    let policy = proptest::sample::select(policies);
+    (
+        policy,
+        history_strategy(cfg),
+        proptest::collection::vec(crate::ops::sop_strategy(cont_cfg), cont_cfg.min_ops..=cont_cfg.max_ops),
+        proptest::collection::vec(any::<u32>(), n_words..=n_words),
+    )
+        .prop_map(|(policy, ops, cont, words)| Case {
+            policy,
+            ops,
+            cont,
             words,
             extra: None,
         })
@@ -36,8 +67,14 @@ pub fn case_strategy(cfg: &GenCfg, policies: Vec<Policy>, n_words: usize) -> Box
 pub fn all() -> Vec<Box<dyn Property>> {
     vec![
         Box::new(c01::C01),
+        Box::new(c02::C02),
+        Box::new(c03::C03),
+        Box::new(c04::C04),
         Box::new(c05::C05),
         Box::new(c06::C06),
+        Box::new(c08::C08),
+        Box::new(c09::C09),
+        Box::new(c12::C12),
         Box::new(c13::C13),
         Box::new(c14::C14),
         Box::new(c15::C15),
